@@ -525,6 +525,7 @@ int main (int argc, char **argv)
       {
         if (i % nshards != shard) continue;
         if (only != ~0ull && i != only) continue;
+        case_watchdog (is_random ? 30 : 120);
         e.case_index = i;
         { Internal in; g.caseid = format ("%s:%llu", mode_s, static_cast<unsigned long long> (i)); }
         uint64_t hs = mix64 (seed, i);
@@ -559,6 +560,7 @@ int main (int argc, char **argv)
       {
         if (idx < first || idx >= last || idx % nshards != shard) return;
         if (only != ~0ull && idx != only) return;
+        case_watchdog (is_sweep ? 30 : 120);
         e.case_index = idx;
         { Internal in; g.caseid = format ("%s:%llu", mode_s, static_cast<unsigned long long> (idx)); }
         if (g.verbose_trace) print_ops ("case", idx, ops);
